@@ -33,7 +33,7 @@ type c13Case struct {
 	Burst int `json:"simultaneous_connections,omitempty"`
 }
 
-var c13States = []string{"fresh", "idle-wait", "connect-stalled", "in-opensent", "in-openconfirm", "est-in", "est-out", "out-opensent", "out-openconfirm", "held-down"}
+var c13States = []string{"fresh", "idle-wait", "connect-stalled", "in-opensent", "in-openconfirm", "est-in", "est-out", "out-opensent", "out-openconfirm", "held-down", "held-down-nowrite"}
 
 type c13Obs struct {
 	testConn                      *vnet.Conn
@@ -67,6 +67,9 @@ func c13Expect(cs c13Case) (admitted bool, why string) {
 		}
 		return true, "P2 is configured, has no local address and no connection yet"
 	}
+	if strings.Contains(cs.Peers, "local0") {
+		return false, "the peer's configured local address is the unspecified address, which is no connection's destination"
+	}
 	if c13Local(cs.Peers) && cs.To != "X" {
 		return false, "destination differs from the peer's configured local address"
 	}
@@ -75,7 +78,7 @@ func c13Expect(cs c13Case) (admitted bool, why string) {
 		return false, "the peer already has an inbound connection in progress"
 	case "est-in", "est-out":
 		return false, "the peer has an Established session"
-	case "held-down":
+	case "held-down", "held-down-nowrite":
 		return false, "the peer is held down"
 	}
 	return true, "configured peer, acceptable destination, no inbound connection / Established session / hold-down"
@@ -85,6 +88,9 @@ func c13Passive(peers string) bool { return strings.Contains(peers, "passive") }
 func c13Local(peers string) bool   { return strings.Contains(peers, "local") }
 
 func c13Applicable(cs c13Case) bool {
+	if strings.Contains(cs.Peers, "local0") {
+		return cs.State == "fresh" // nothing is ever admitted, so there is no other state to bring the peer into
+	}
 	if c13Passive(cs.Peers) {
 		switch cs.State {
 		case "idle-wait", "connect-stalled", "est-out", "out-opensent", "out-openconfirm":
@@ -103,8 +109,19 @@ func c13Run(cs c13Case, ch vrt.Chooser, trace bool) (*world.World, *vrt.Exec, *c
 		w = world.New(libIP)
 		w.NewServer(libIP)
 		pl := &world.Plugin{W: w, Peer: "P1", Marker: true, NoYield: ch == nil}
+		var rstTarget *world.Remote
+		pl.OpenNotif = func(netip.Addr, []corebgp.Capability) *corebgp.Notification {
+			if rstTarget != nil {
+				rstTarget.C.Reset()
+				rstTarget = nil
+				return &corebgp.Notification{Code: 2, Subcode: 7}
+			}
+			return nil
+		}
 		opts := []corebgp.PeerOption{corebgp.WithDialerControl(w.DialControl("P1"))}
-		if c13Local(cs.Peers) {
+		if strings.Contains(cs.Peers, "local0") {
+			opts = append(opts, corebgp.WithLocalAddress(netip.MustParseAddr("0.0.0.0")))
+		} else if c13Local(cs.Peers) {
 			opts = append(opts, corebgp.WithLocalAddress(netip.MustParseAddr("10.0.0.1")))
 		}
 		if c13Passive(cs.Peers) {
@@ -155,10 +172,17 @@ func c13Run(cs c13Case, ch vrt.Chooser, trace bool) (*world.World, *vrt.Exec, *c
 					r.Deadline(20 * time.Second)
 					r.Drain()
 				})
-			case "held-down":
+			case "held-down", "held-down-nowrite":
 				return accept(func(r *world.Remote) {
 					if _, ok := r.Expect(wire.TypeOpen); ok {
-						r.Send(wire.Open(64999, 90, 0x0a000002))
+						if cs.State == "held-down-nowrite" {
+							// a valid OPEN that the plugin refuses; the connection is reset while the callback
+							// runs, so the NOTIFICATION cannot be written any more
+							rstTarget = r
+							r.Send(wire.Open(65002, 90, 0x0a000002))
+						} else {
+							r.Send(wire.Open(64999, 90, 0x0a000002))
+						}
 					}
 					r.Deadline(5 * time.Second)
 					r.Drain()
@@ -224,11 +248,16 @@ func c13Run(cs c13Case, ch vrt.Chooser, trace bool) (*world.World, *vrt.Exec, *c
 				r.Deadline(0)
 				r.Drain()
 			})
-		case "held-down":
+		case "held-down", "held-down-nowrite":
 			if c13Passive(cs.Peers) {
 				inbound(func(r *world.Remote) {
 					if _, ok := r.Expect(wire.TypeOpen); ok {
-						r.Send(wire.Open(64999, 90, 0x0a000002))
+						if cs.State == "held-down-nowrite" {
+							rstTarget = r
+							r.Send(wire.Open(65002, 90, 0x0a000002))
+						} else {
+							r.Send(wire.Open(64999, 90, 0x0a000002))
+						}
 					}
 					r.Deadline(5 * time.Second)
 					r.Drain()
@@ -251,7 +280,7 @@ func c13Run(cs c13Case, ch vrt.Chooser, trace bool) (*world.World, *vrt.Exec, *c
 		vrt.WaitLog("state-ready", func() bool { return w.Flag("state-ready") || vrt.Cur().Now() >= dl })
 		vrt.LogTouch()
 		o.stateReady = w.Flag("state-ready")
-		if cs.State == "held-down" {
+		if strings.HasPrefix(cs.State, "held-down") {
 			vrt.Sleep(20 * time.Second) // well inside the 60 s hold-down
 		}
 		if cs.Before != "" {
@@ -391,7 +420,7 @@ func c13Judge(cs c13Case, w *world.World, e *vrt.Exec, o *c13Obs) (string, strin
 
 func c13Cases() []c13Case {
 	var out []c13Case
-	for _, peers := range []string{"P1", "P1-local", "P1-passive", "P1-passive-local", "P1+P2"} {
+	for _, peers := range []string{"P1", "P1-local", "P1-passive", "P1-passive-local", "P1-passive-local0", "P1+P2"} {
 		for _, st := range c13States {
 			for _, from := range []string{"A", "B", "C", "V6"} {
 				for _, to := range []string{"X", "Y", "W"} {
@@ -589,7 +618,7 @@ func c13Check(c *harness.Ctx) {
 func init() {
 	harness.Register(&harness.Check{
 		Property: "C13", Level: "exploration", NeedsConc: true, QuickS: 200, ThoroughS: 1200,
-		Rule:   "complete grid of peer sets {P1, P1 with local address, P1 passive, P1 passive with local address, P1+P2} x state of P1 at arrival {fresh, idle-wait, stalled connect, inbound OpenSent, inbound OpenConfirm, Established via inbound, Established via outbound, outbound OpenSent, outbound OpenConfirm, held down} x source {P1, P2, unconfigured, IPv6} x destination {P1's local address, another address, wildcard listener}: each cell one run of the real server over the virtual network (three listeners), judged against the admission predicate (OPEN received vs EOF with zero bytes, no callback, existing session still delivers a probe); plus all schedules within the delay bound (1 quick / 2 thorough) for the cells with the configured source; plus a single wildcard listener with an earlier connection from an unconfigured source, bursts of 2-3 simultaneous connections, and a connection that arrives while the peer is being deleted (it must not stay open); all cells non-trivial and distinct",
+		Rule:   "complete grid of peer sets {P1, P1 with local address, P1 passive, P1 passive with local address, P1 passive with the unspecified local address 0.0.0.0, P1+P2} x state of P1 at arrival {fresh, idle-wait, stalled connect, inbound OpenSent, inbound OpenConfirm, Established via inbound, Established via outbound, outbound OpenSent, outbound OpenConfirm, held down, held down after a protocol error whose NOTIFICATION could not be written} x source {P1, P2, unconfigured, IPv6} x destination {P1's local address, another address, wildcard listener}: each cell one run of the real server over the virtual network (three listeners), judged against the admission predicate (OPEN received vs EOF with zero bytes, no callback, existing session still delivers a probe); plus all schedules within the delay bound (1 quick / 2 thorough) for the cells with the configured source; plus a single wildcard listener with an earlier connection from an unconfigured source, bursts of 2-3 simultaneous connections, and a connection that arrives while the peer is being deleted (it must not stay open); all cells non-trivial and distinct",
 		Assume: []string{"virtual network with real net.TCPAddr endpoints (A3)", "default schedule for the grid"},
 		Run:    c13Check,
 		Replay: func(c *harness.Ctx, raw json.RawMessage) {
